@@ -4,8 +4,10 @@ pub mod c01;
 pub mod c02;
 pub mod c03;
 pub mod c04;
+pub mod c05;
 pub mod c06;
 pub mod c07;
+pub mod c08;
 pub mod c09;
 pub mod c10;
 pub mod c11;
@@ -14,7 +16,9 @@ pub mod c13;
 pub mod c14;
 pub mod c15;
 pub mod c16;
+pub mod c17;
 pub mod c18;
+pub mod c19;
 pub mod c20;
 
 /// field path with the concrete port / item index removed (stable signatures)
@@ -23,7 +27,7 @@ pub fn c13_generic(path: &str) -> String {
 	p.split('.').filter(|c| !(c.len() == 2 && c.starts_with('P'))).map(|c| if c.starts_with("item[") { "item[k]" } else { c }).collect::<Vec<_>>().join(".")
 }
 
-pub const IDS: &[&str] = &["C01", "C02", "C03", "C04", "C06", "C07", "C09", "C10", "C11", "C12", "C13", "C14", "C15", "C16", "C18", "C20"];
+pub const IDS: &[&str] = &["C01", "C02", "C03", "C04", "C05", "C06", "C07", "C08", "C09", "C10", "C11", "C12", "C13", "C14", "C15", "C16", "C17", "C18", "C19", "C20"];
 
 pub fn get(id: &str) -> Option<Box<dyn Monitor>> {
 	Some(match id {
@@ -31,8 +35,10 @@ pub fn get(id: &str) -> Option<Box<dyn Monitor>> {
 		"C02" => Box::new(c02::C02::new()),
 		"C03" => Box::new(c03::C03::new()),
 		"C04" => Box::new(c04::C04::new()),
+		"C05" => Box::new(c05::C05::new()),
 		"C06" => Box::new(c06::C06::new()),
 		"C07" => Box::new(c07::C07::new()),
+		"C08" => Box::new(c08::C08::new()),
 		"C09" => Box::new(c09::C09),
 		"C10" => Box::new(c10::C10::new()),
 		"C11" => Box::new(c11::C11::new()),
@@ -40,7 +46,9 @@ pub fn get(id: &str) -> Option<Box<dyn Monitor>> {
 		"C13" => Box::new(c13::C13::new()),
 		"C15" => Box::new(c15::C15),
 		"C16" => Box::new(c16::C16),
+		"C17" => Box::new(c17::C17),
 		"C18" => Box::new(c18::C18::new()),
+		"C19" => Box::new(c19::C19::new()),
 		"C20" => Box::new(c20::C20),
 		"C14" => Box::new(c14::C14::new()),
 		_ => return None,
